@@ -8,6 +8,25 @@ ROOT = os.path.dirname(os.path.dirname(os.path.abspath(__file__)))
 
 # id -> (category, technique, level text, level note, design ref)
 CHECKS = {
+    'C04': ('exploration',
+            'Hypothesis-generated multi-session, multi-mailbox histories; '
+            'invariant over the whole history of reported (UIDVALIDITY, UID) '
+            'pairs, verified by UID FETCH probes',
+            'Histories of <= 30 steps over INBOX / A / B with three sessions: '
+            'APPEND and MULTIAPPEND, COPY / MOVE by sequence and UID sets, '
+            'flag-and-EXPUNGE biased to the highest UID, RENAME (incl. INBOX '
+            'on dict), DELETE + CREATE of the same name, SELECT / STATUS, and '
+            'on maildir a server restart in mid-history. Per UIDVALIDITY: '
+            'every APPENDUID / COPYUID UID is above everything reported before '
+            'and not below a reported UIDNEXT; reported UIDNEXT is above every '
+            'assigned UID; the reported UIDs are found by UID FETCH with the '
+            'expected X-Vid and COPYUID pairs source to destination; the map '
+            '(UIDVALIDITY, UID) -> X-Vid never changes, also across rename and '
+            'restart. Crash images are covered by C15 with the same map '
+            'invariant. Sampled.',
+            'UIDVALIDITY collisions are not steered; command-level '
+            'interleaving of sessions (asyncio subsystem).',
+            'DESIGN.md section 3, C04'),
     'C15': ('fault_enumeration',
             'Hypothesis-generated histories; exhaustive enumeration of every '
             'filesystem-operation crash point of each history by in-process '
